@@ -8,6 +8,8 @@ schema instances are opaque ids), and the model must reproduce the results of
 fold and fold_enhanced, the statistics and the exact sequence of oracle calls.
 The monitor checks the property itself on the implementation's results.
 """
+import contextlib
+import io
 import json as _json
 import re as _re
 from fractions import Fraction
@@ -63,6 +65,83 @@ def gen_spec(rng, depth=0):
             f["default"] = default_for(t)
         spec.append(f)
     return spec
+
+
+WIDE_NAMES = ["f%02d" % i for i in range(26)]
+WIDE_TYPES = ["int", "int", "float", "str", "str", "bool", "list_int", "list_str", "opt_int", "opt_str"]
+
+
+def gen_wide_spec(rng, n=None):
+    """8..24 flat fields: enough coercible fields for the LENIENT confidence 0.85 - 0.05*n to reach its floor 0.5 (n >= 7)
+    and the point where it would leave [0,1] without the floor (n >= 18)."""
+    n = n or rng.choice([7, 8, 8, 10, 12, 17, 18, 20, 24])
+    spec = []
+    for nm in WIDE_NAMES[:n]:
+        t = rng.choice(WIDE_TYPES)
+        f = {"name": nm, "type": t, "required": rng.random() < 0.8}
+        if not f["required"] and not t.startswith("opt_"):
+            f["default"] = default_for(t)
+        spec.append(f)
+    return spec
+
+
+def coercible_swap(rng, spec, d, p):
+    """Type swaps that the LENIENT coercion table can undo (each one is one entry of coercions_applied)."""
+    d = dict(d)
+    for f in spec:
+        k = f["name"]
+        if k not in d or rng.random() >= p:
+            continue
+        v, t = d[k], f["type"]
+        if t == "int" and isinstance(v, int) and abs(v) < 2 ** 60:
+            d[k] = str(v)
+        elif t == "float":
+            d[k] = rng.choice([str(float(v)), "1e3", "2.5"])
+        elif t == "str" and isinstance(v, str):
+            d[k] = rng.choice([7, 2.5, True, 0])
+        elif t == "bool":
+            d[k] = rng.choice(["yes", "no", "TRUE", "0", "1", "False"])
+        elif t == "list_int":
+            d[k] = rng.choice(["1, 2,3", "4", "5,6"])
+        elif t == "list_str":
+            d[k] = rng.choice(["a,b", "p, q , r", "solo"])
+    return d
+
+
+_IDENT = _re.compile(r"^[A-Za-z_][A-Za-z0-9_]*$")
+
+
+def pyish_dumps(rng, v, p, top=True):
+    """Serialise the way a Python-minded generator writes 'JSON': single quotes, bare keys, None/True/False,
+    undefined/NaN for missing values, trailing commas.  Every construct is one entry of the REPAIR table, so one text
+    can need 7..10 repairs (confidence 0.75 - 0.05*n reaches its floor 0.4 at n = 7)."""
+    if v is None:
+        return rng.choice(["None", "undefined", "NaN", "null"]) if top else rng.choice(["None", "null"])
+    if v is True:
+        return "True" if rng.random() < p else "true"
+    if v is False:
+        return "False" if rng.random() < p else "false"
+    if isinstance(v, (int, float)):
+        return _json.dumps(v)
+    if isinstance(v, str):
+        plain = all(c not in v for c in "'\"\\") and all(ord(c) >= 32 for c in v)
+        return "'%s'" % v if (top and plain and rng.random() < p) else _json.dumps(v)
+    if isinstance(v, list):
+        items = [pyish_dumps(rng, x, p, top=False) for x in v]
+        tail = rng.choice([",", ", "]) if items and rng.random() < p else ""
+        return "[" + ", ".join(items) + tail + "]"
+    items = []
+    for k, x in v.items():
+        r = rng.random()
+        if _IDENT.match(k) and r < p / 2:
+            key = k
+        elif "'" not in k and r < p:
+            key = "'%s'" % k
+        else:
+            key = _json.dumps(k)
+        items.append(key + rng.choice([": ", ":", " : "]) + pyish_dumps(rng, x, p, top=True))
+    tail = rng.choice([",", ", ", ",\n"]) if items and rng.random() < p else ""
+    return "{" + ", ".join(items) + tail + "}"
 
 
 STRINGS = ["x", "Alice", "hello world", "None", "True story", "a, }b", "it's", "{x}", "[1]", 'q"uote', "é", "日本",
@@ -430,6 +509,10 @@ class CoRaise(Exception):
     pass
 
 
+def _map_raiser(x):
+    raise CoRaise("mapped function failed")
+
+
 def co_fn(kind):
     if kind == "identity":
         return lambda s: s
@@ -456,6 +539,34 @@ DECAYS = [0.1, 0.1, 0.1, 0.25, 0.4, 0.5, 0.3, 0.05, 0.0, 1.0, 1.5, 0.34, 0.125, 
 HEAL_FAILS = ["I am not sure what you want", "not json", "{", "[1, 2", "", "```json\n{bad}\n```", "null", "3",
               "Sorry, here it is: {...}", '{"unterminated": "str']
 OUTCOMES = {"valid_first_try": 0, "healed": 1, "degraded": 2}
+# needles for create_mock_healing_generator; the error context reads "Previous output was invalid. Error: All N folding
+# strategies failed\nYour output was: <first 200 chars>[...]\nPlease correct the output to match the expected schema."
+MOCK_NEEDLES = ["folding strategies failed", "All 4 folding", "All 1 folding", "", "not a valid float", "Your output was: {",
+                "...", "Error: All", "schema", "JSON", "\n"]
+
+
+def heal_opts(op):
+    return op[5] if len(op) > 5 and isinstance(op[5], dict) else {}
+
+
+def make_generator(CL, op, texts, on_call):
+    """The generator of one heal op: either 'the k-th call returns texts[idxs[min(k, last)]]' or the library's
+    create_mock_healing_generator(texts[idxs[0]], texts[idxs[1]], needle).  on_call(k, error_context, text) sees every call."""
+    idxs, opts = op[1], heal_opts(op)
+    n = [0]
+    if "mock" in opts:
+        inner = CL.create_mock_healing_generator(texts[idxs[0]], texts[idxs[1]], opts["mock"])
+    else:
+        def inner(prompt, error_context=None):
+            return texts[idxs[min(n[0], len(idxs) - 1)]]
+
+    def generator(prompt, error_context=None):
+        out = inner(prompt, error_context)
+        k = n[0]
+        n[0] += 1
+        on_call(k, error_context, out)
+        return out
+    return generator
 
 
 def dyadic(x):
@@ -489,7 +600,21 @@ class C11(Check):
             "as fold_enhanced(A);fold_enhanced(B);fold(B) on one object, and the healing-loop grid decay in {0.1,0.25,0.4,0.5,1,1.5,0} x "
             "0..5 failed generations (0.1 also 9..13) x max_retries enough / one too few x final text clean (STRICT) / fenced "
             "(EXTRACTION) (thorough: 8 more decays x 0..11 failures). non-trivial = some corruption, non-default strategies, "
-            "callback or more than one call; distinct by case content")
+            "callback or more than one call; distinct by case content. "
+            "Blind-spot widening: 12% of the generated cases use a WIDE schema (7..24 flat fields) whose text needs many coercions "
+            "(every field type-swapped in a way the LENIENT table undoes) or many repairs (a Python-minded serialiser: single-quoted "
+            "and bare keys, single-quoted values, None/True/False, undefined/NaN, trailing commas) so that the confidence floors "
+            "max(0.5, 0.85-0.05n) and max(0.4, 0.75-0.05n) are reached (n >= 7) and passed to where the unclamped value leaves [0,1] "
+            "(n >= 17); enumerated ladders n = 0..11,16..19,24 coercions and 0..10 repairs (three rotations of the rule order). 45% of "
+            "the heals run with ChaperoneLoop(silent=False) (console output captured; all three messages), 20% use the library's own "
+            "create_mock_healing_generator(initial, healed, needle) with needles that do / do not occur in the error context (also "
+            "'' and '...' for > 200-character outputs); enumerated: silent=False x decay {0.1,0.5} x 0..3 failures x max_retries "
+            "enough / one too few / one more, and every needle x 4 initial texts. 30% of the cases construct the Chaperone with "
+            "silent=False and/or max_retries in {0,1,-1,10,3} (documented as unused), 4% with strategies=[]; in 40% read-only "
+            "accessors are interleaved (get_statistics before the first fold and three times after every call, FoldedProtein.map "
+            "with an identity and with a raising function on every plain result, HealingResult.valid/.structure) - the model "
+            "does not see any of these options, so each must leave every observation unchanged, and the monitor compares with the "
+            "same call on a fresh default-knob silent Chaperone")
     LEVEL_TEXT = ("Coq theorems, for all raw texts, schemas, strategy lists and ALL behaviours of json/re/str.strip/pydantic/"
                   "coercion/co-chaperone/on_misfold (return anything or raise any Exception class at any call), about an "
                   "executable model of Chaperone.fold and fold_enhanced: valid => the structure was returned by model_validate "
@@ -525,9 +650,13 @@ class C11(Check):
                "confidence: theorems over Q with decimal literals read exactly; correspondence is bit-exact on binary64 (PrimFloat)",
                "error strings are compared by shape (prefix / fixed text), durations are not modelled",
                "instance state modelled: the four statistics counters and the co_chaperones dict; strategies, on_misfold, silent "
-               "and max_retries are set by the constructor only",
+               "and max_retries are set by the constructor only (silent / max_retries of the Chaperone, silent of the loop and the "
+               "read-only accessors are NOT inputs of the model: cases that vary them must reproduce the model's observations)",
                "ChaperoneLoop: the generator is a deterministic user callback (its k-th call returns a text; the error context "
-               "it is handed is not observed); confidence_decay is a finite binary64 value passed to the model exactly as m*2^e"]
+               "it is handed is not observed - for the library's create_mock_healing_generator the model is given the texts it "
+               "actually returned); confidence_decay is a finite binary64 value passed to the model exactly as m*2^e",
+               "console output of the silent=False paths is captured with contextlib.redirect_stdout into a str buffer (an "
+               "output stream that cannot encode the messages' emoji is outside the check)"]
     ASSUMPTIONS = ["raw_peptide_chain is a str and target_schema a pydantic BaseModel subclass",
                    "strategy lists contain FoldingStrategy members only",
                    "fold may raise only if the registered co-chaperone or the on_misfold callback raises",
@@ -584,21 +713,75 @@ class C11(Check):
             ops.append(op)
         return raw, ops
 
+    def _gen_wide_raw(self, rng, spec):
+        """Many coercions (LENIENT) or many repairs (REPAIR) in ONE text: the confidence floors max(0.5, .), max(0.4, .)
+        are reached only from 7 coercions / repairs on."""
+        d = {}
+        for f in spec:
+            if f["required"] or rng.random() < 0.9:
+                v = gen_value(rng, f)
+                if isinstance(v, str):
+                    v = rng.choice(["x", "Alice", "hello world", "12", "yes", "a,b", "é"])
+                d[f["name"]] = v
+        if rng.random() < 0.5:
+            d = coercible_swap(rng, spec, d, rng.choice([1.0, 1.0, 0.9, 0.7]))
+            raw, ops = _json.dumps(d), ["wide_coercible"]
+            if rng.random() < 0.3:
+                op = rng.choice(["fence_json", "prose", "xml", "pad"])
+                raw = apply_text_op(rng, op, raw)
+                ops.append(op)
+        else:
+            raw, ops = pyish_dumps(rng, d, rng.choice([1.0, 1.0, 0.9, 0.7])), ["wide_pyish"]
+            if rng.random() < 0.3:
+                d2 = coercible_swap(rng, spec, d, 0.3)
+                raw = pyish_dumps(rng, d2, 0.9)
+                ops.append("type_swap")
+        return raw, ops
+
     def _gen_one(self, rng):
         """One (schema, text, strategies, callbacks) tuple; used for single calls and by the healing-loop test."""
-        spec = gen_spec(rng)
+        wide = rng.random() < 0.12
+        spec = gen_wide_spec(rng) if wide else gen_spec(rng)
         ctor, arg = self._strat_lists(rng)
-        raw, ops = self._gen_raw(rng, spec)
+        if ctor is None and rng.random() < 0.04:
+            ctor = []                      # Chaperone(strategies=[]) means the default list
+        raw, ops = self._gen_wide_raw(rng, spec) if wide else self._gen_raw(rng, spec)
+        if wide and rng.random() < 0.5:
+            # make the strategy that has to do the work reachable whatever the random lists say
+            ctor, arg = None, rng.choice([None, None, [2], [3], [2, 3], [3, 2], [0, 2], [0, 1, 3]])
         co = rng.choice(CO_KINDS) if rng.random() < 0.08 else None
         mis = rng.choice(["record", "record", "raise"]) if rng.random() < 0.15 else None
         return {"schema": spec, "raw": to_parts(raw), "ctor": ctor, "arg": arg, "co": co, "misfold": mis, "ops": ops}
 
     @staticmethod
-    def history(spec, raw, ctor, calls, co=None, misfold=None, tags=()):
+    def history(spec, raw, ctor, calls, co=None, misfold=None, tags=(), knobs=None, access=False):
         """calls: list of (fn, arg) on text 0 / schema 0."""
-        return {"schemas": [spec], "texts": [to_parts(raw) if isinstance(raw, str) else raw], "ctor": ctor,
-                "co": ({"0": co} if co else {}), "misfold": misfold,
-                "ops": [[fn, 0, 0, arg] for fn, arg in calls], "tags": list(tags)}
+        h = {"schemas": [spec], "texts": [to_parts(raw) if isinstance(raw, str) else raw], "ctor": ctor,
+             "co": ({"0": co} if co else {}), "misfold": misfold,
+             "ops": [[fn, 0, 0, arg] for fn, arg in calls], "tags": list(tags)}
+        if knobs:
+            h["knobs"] = knobs
+        if access:
+            h["access"] = True
+        return h
+
+    @staticmethod
+    def _gen_knobs(rng, case):
+        """Constructor knobs that must not matter (Chaperone.max_retries is 'unused, kept for compatibility', silent only
+        suppresses console output) and read-only accessors interleaved between the calls."""
+        if rng.random() < 0.3:
+            kn = {}
+            if rng.random() < 0.7:
+                kn["silent"] = False
+            if rng.random() < 0.6:
+                kn["max_retries"] = rng.choice([0, 1, -1, 10, 3])
+            if kn:
+                case["knobs"] = kn
+                case["tags"].append("knobs")
+        if rng.random() < 0.4:
+            case["access"] = True
+            case["tags"].append("accessors")
+        return case
 
     def _gen_heal(self, rng, schemas, texts, tags):
         """One ChaperoneLoop.heal on the history's Chaperone: a generator that resubmits unfoldable text nf times and
@@ -609,6 +792,9 @@ class C11(Check):
         b = min(13, int(1 / decay)) if decay >= 0.05 else 3
         nf = min(13, rng.choice([0, 0, 1, 1, 2, 3, b, b, b + 1, b + 2]))
         mr = rng.choice([nf, nf, nf, nf + 1, nf - 1, 3, 0])
+        opts = {}
+        if rng.random() < 0.45:
+            opts["loud"] = True            # ChaperoneLoop(silent=False): the three console messages
 
         def add(t):
             parts = to_parts(t)
@@ -616,6 +802,16 @@ class C11(Check):
                 return texts.index(parts)
             texts.append(parts)
             return len(texts) - 1
+        if rng.random() < 0.2:
+            # the library's own generator (create_mock_healing_generator): returns `healed` once the error context it is
+            # handed contains the needle, `initial` before / otherwise
+            initial = rng.choice(HEAL_FAILS) if rng.random() < 0.7 else self._gen_raw(rng, schemas[sidx])[0]
+            if rng.random() < 0.15:
+                initial = "pad " * 60 + initial          # > 200 characters: the error context abbreviates it with '...'
+            healed = _json.dumps(gen_instance(rng, schemas[sidx])) if rng.random() < 0.8 else self._gen_raw(rng, schemas[sidx])[0]
+            opts["mock"] = rng.choice(MOCK_NEEDLES)
+            tags += ["heal", "heal-mock"] + (["heal-loud"] if opts.get("loud") else [])
+            return ["heal", [add(initial), add(healed)], sidx, rng.choice([1, 1, 2, 3, 0, -1]), decay, opts]
         idxs, fail = [], rng.choice(HEAL_FAILS)
         for _ in range(nf):
             r = rng.random()
@@ -631,14 +827,17 @@ class C11(Check):
             tags += ops2
         idxs.append(add(last))
         tags.append("heal")
+        if opts:
+            tags.append("heal-loud")
+            return ["heal", idxs, sidx, mr, decay, opts]
         return ["heal", idxs, sidx, mr, decay]
 
     def _gen_hist(self, rng):
         b = self._gen_one(rng)
         spec = b["schema"]
         if rng.random() < 0.35:
-            return self.history(spec, b["raw"], b["ctor"], [("fold", b["arg"]), ("enh", b["arg"])], b["co"], b["misfold"],
-                                b["ops"] + ["pair"])
+            return self._gen_knobs(rng, self.history(spec, b["raw"], b["ctor"], [("fold", b["arg"]), ("enh", b["arg"])], b["co"],
+                                                     b["misfold"], b["ops"] + ["pair"]))
         schemas, texts, tags = [spec], [b["raw"]], list(b["ops"])
         if rng.random() < 0.3:
             raw2, ops2 = self._gen_raw(rng, spec)
@@ -672,8 +871,8 @@ class C11(Check):
             if rng.random() < 0.5:
                 ops = [o for o in ops if o[0] == "heal" or rng.random() < 0.4]
         tags.append("history")
-        return {"schemas": schemas, "texts": texts, "ctor": b["ctor"], "co": ({"0": b["co"]} if b["co"] else {}),
-                "misfold": b["misfold"], "ops": ops, "tags": tags}
+        return self._gen_knobs(rng, {"schemas": schemas, "texts": texts, "ctor": b["ctor"], "co": ({"0": b["co"]} if b["co"] else {}),
+                                     "misfold": b["misfold"], "ops": ops, "tags": tags})
 
     def gen_cases(self, rng, n):
         return [self._gen_hist(rng) for _ in range(n)]
@@ -715,19 +914,70 @@ class C11(Check):
                     if mr < nf and good != self.CANON_RAW[0]:
                         continue
                     out.append(self.heal_case(self.CANON_SPEC, ["not json at all"] * nf + [good], mr, decay, tags=["canon-heal"]))
+        # the same loop with silent=False (healed / misfolded / ubiquitin messages), with the result's accessors read
+        for decay, nf in [(d, nf) for d in (0.1, 0.5) for nf in range(0, 4)] + [(0.1, 12), (1.5, 2)]:
+            for mr in (nf, nf - 1, nf + 1):
+                out.append(self.heal_case(self.CANON_SPEC, ["not json at all"] * nf + [self.CANON_RAW[nf % 3]], mr, decay,
+                                          tags=["canon-heal", "heal-loud"], opts={"loud": True}, access=bool(nf % 2)))
+        # the library's mock generator: every needle x (initial unfoldable / foldable / long) x retries 0..2
+        for needle in MOCK_NEEDLES:
+            for initial in ("not json at all", self.CANON_RAW[6], "x" * 30 + " {bad} " * 40, self.CANON_RAW[0]):
+                for mr in ((0, 1, 2) if initial == "not json at all" else (1,)):
+                    out.append(self.heal_case(self.CANON_SPEC, [initial, self.CANON_RAW[2]], mr, 0.25, tags=["canon-heal", "heal-mock"],
+                                              opts={"mock": needle, **({"loud": True} if mr == 1 else {})}))
+        # confidence floors of LENIENT and REPAIR
+        for n in list(range(0, 12)) + [16, 17, 18, 19, 24]:
+            spec, raw = self.coercion_ladder(n)
+            out.append(self.history(spec, raw, None, [("enh", [2]), ("fold", [2]), ("enh", None)], tags=["canon-coercions=%d" % n]))
+        for k in range(0, 11):
+            for rot in ((0, 3, 6) if 0 < k < 10 else (0,)):
+                out.append(self.history(self.REPAIR_SPEC, self.repair_ladder(k, rot), None, [("enh", [3]), ("fold", [3]), ("enh", None)],
+                                        tags=["canon-repairs=%d" % k], access=(k + rot) % 2 == 1,
+                                        knobs={"silent": False, "max_retries": 0} if k % 3 == 0 else None))
         return out
 
     @staticmethod
-    def heal_case(spec, raws, mr, decay, ctor=None, pre=(), post=(), tags=()):
-        """One heal whose generator returns `raws` in turn, optionally between fold calls on text 0."""
+    def heal_case(spec, raws, mr, decay, ctor=None, pre=(), post=(), tags=(), opts=None, access=False):
+        """One heal whose generator returns `raws` in turn (opts['mock']: raws = [initial, healed] of the library's mock
+        generator), optionally between fold calls on text 0."""
         texts, idxs = [], []
         for r in raws:
             p_ = to_parts(r)
             if p_ not in texts:
                 texts.append(p_)
             idxs.append(texts.index(p_))
-        ops = [[fn, 0, 0, arg] for fn, arg in pre] + [["heal", idxs, 0, mr, decay]] + [[fn, 0, 0, arg] for fn, arg in post]
-        return {"schemas": [spec], "texts": texts, "ctor": ctor, "co": {}, "misfold": None, "ops": ops, "tags": list(tags)}
+        ops = ([[fn, 0, 0, arg] for fn, arg in pre] + [["heal", idxs, 0, mr, decay] + ([opts] if opts else [])]
+               + [[fn, 0, 0, arg] for fn, arg in post])
+        c = {"schemas": [spec], "texts": texts, "ctor": ctor, "co": {}, "misfold": None, "ops": ops, "tags": list(tags)}
+        if access:
+            c["access"] = True
+        return c
+
+    # confidence floors: n coercions (LENIENT, 0.85 - 0.05 n, floor 0.5 from n = 7; below 0 without the floor from n = 18)
+    @staticmethod
+    def coercion_ladder(n):
+        spec = [{"name": "name", "type": "str", "required": True}] + [
+            {"name": WIDE_NAMES[i], "type": ["int", "float", "bool", "list_str", "str"][i % 5], "required": True} for i in range(n)]
+        d = {"name": "A"}
+        for i in range(n):
+            d[WIDE_NAMES[i]] = ["41", "2.5", "yes", "p, q", 7][i % 5]
+        return spec, _json.dumps(d)
+
+    # ... and k of the ten REPAIR rules needed by one text (0.75 - 0.05 k, floor 0.4 from k = 7)
+    REPAIR_SPEC = [{"name": "a", "type": "int", "required": True}] + [
+        {"name": nm, "type": t, "required": False, **({} if t.startswith("opt_") else {"default": default_for(t)})}
+        for nm, t in [("l", "list_int"), ("k", "int"), ("v", "str"), ("u", "int"), ("n", "opt_int"), ("t", "bool"), ("f", "bool"),
+                      ("d", "opt_int"), ("x", "opt_int")]]
+    REPAIR_FRAGS = ['"l": [1, 2,]', "'k': 1", "\"v\": 'x'", "u: 1", '"n": None', '"t": True', '"f": False', '"d": undefined',
+                    '"x": NaN']
+
+    @classmethod
+    def repair_ladder(cls, k, rot=0):
+        """A text that needs exactly k repairs (k = 0: clean JSON)."""
+        if k == 0:
+            return '{"a": 1}'
+        frags = cls.REPAIR_FRAGS[rot:] + cls.REPAIR_FRAGS[:rot]
+        return '{"a": 1, ' + "".join(f + ", " for f in frags[:k - 1]) + "}"
 
     def corpus_cases(self):
         base = []
@@ -810,6 +1060,7 @@ class C11(Check):
     def run_impl(self, case):
         from operon_ai.organelles import chaperone as CH
         from operon_ai.healing import chaperone_loop as CL
+        from operon_ai.core import types as CT
         S = [CH.FoldingStrategy(v) for v in STRATS]
         code = {s: i for i, s in enumerate(S)}
         texts = [parts_text(t) for t in case["texts"]]
@@ -865,13 +1116,45 @@ class C11(Check):
         steps = []
         reg = {int(k): v for k, v in case["co"].items()}
 
+        knobs = case.get("knobs") or {}
+        access = bool(case.get("access"))
+        out_buf = io.StringIO()
+        pre = {}
+
+        def accessors(st, r):
+            """Read-only public accessors between the operations; whatever they return, every LATER observation (and the
+            result object itself, which is observed afterwards) must be what it is without them."""
+            def snap():
+                f = getattr(r, "folded", None)
+                return [repr(getattr(r, a, None)) for a in ("valid", "error_trace", "outcome", "final_confidence", "ubiquitin_tagged",
+                                                            "confidence", "strategy_used", "coercions_applied")] + [
+                    id(getattr(r, "structure", None)), id(f), repr(getattr(f, "confidence", None)), repr(getattr(f, "valid", None)),
+                    len(getattr(r, "attempts", None) or [])]
+            before = snap()
+            try:
+                if isinstance(r, CT.FoldedProtein):
+                    st["maps"] = (r.map(lambda x: x), r.map(_map_raiser))
+                if isinstance(r, CL.HealingResult):
+                    st["h_props"] = (r.valid, r.structure)
+                st["stats_twice"] = (stats_obs(st["chap"]), stats_obs(st["chap"]))
+            except Exception as e:
+                st["access_exc"] = e
+            if snap() != before:
+                st["access_changed"] = (before, snap())
+
         def body():
+            kw = {"max_retries": knobs["max_retries"]} if "max_retries" in knobs else {}
             chap = CH.Chaperone(strategies=strat_list(case["ctor"]),
                                 co_chaperones={schemas[i]: make_co(k) for i, k in reg.items()} or None,
-                                on_misfold=on_misfold if case["misfold"] else None, silent=True)
+                                on_misfold=on_misfold if case["misfold"] else None, silent=knobs.get("silent", True), **kw)
             rec.wrap_coerce(chap, schemas)
+            if access:
+                try:
+                    pre["stats"] = stats_obs(chap)          # get_statistics before any fold (0 / max(1, 0))
+                except Exception as e:
+                    pre["exc"] = e
             for op in case["ops"]:
-                st = {"op": op, "reg": dict(reg)}
+                st = {"op": op, "reg": dict(reg), "chap": chap, "out0": out_buf.tell()}
                 if op[0] == "register":
                     chap.register_co_chaperone(schemas[op[1]], make_co(op[2]))
                     reg[op[1]] = op[2]
@@ -881,20 +1164,23 @@ class C11(Check):
                 elif op[0] == "heal":
                     rec.log = []
                     st["gen_calls"] = gen_calls = []
+                    st["gen_texts"] = gen_texts = []
 
-                    def generator(prompt, error_context=None, idxs=op[1], gen_calls=gen_calls):
-                        k = len(gen_calls)
+                    def on_call(k, error_context, text, gen_calls=gen_calls, gen_texts=gen_texts):
                         gen_calls.append(error_context)
+                        gen_texts.append(text)
                         if rec.active:
                             rec.log.append([-3, k])
-                        return texts[idxs[min(k, len(idxs) - 1)]]
                     try:
-                        loop = CL.ChaperoneLoop(generator=generator, chaperone=chap, schema=schemas[op[2]],
-                                                max_retries=op[3], confidence_decay=op[4], silent=True)
+                        loop = CL.ChaperoneLoop(generator=make_generator(CL, op, texts, on_call), chaperone=chap,
+                                                schema=schemas[op[2]], max_retries=op[3], confidence_decay=op[4],
+                                                silent=not heal_opts(op).get("loud"))
                         st["res"] = ("ret", loop.heal("p"))
                     except Exception as e:
                         st["res"] = ("raised", e)
                     st["log"] = rec.log
+                    if access and st["res"][0] == "ret":
+                        accessors(st, st["res"][1])
                     st["stats"] = stats_obs(chap)
                 else:
                     rec.log = []
@@ -904,12 +1190,17 @@ class C11(Check):
                     except Exception as e:
                         st["res"] = ("raised", e)
                     st["log"] = rec.log
+                    if access and st["res"][0] == "ret":
+                        accessors(st, st["res"][1])
                     st["stats"] = stats_obs(chap)
+                st["printed"] = out_buf.getvalue()[st["out0"]:]
                 steps.append(st)
             return True
 
         try:
-            common.call_with_watchdog(body, 90.0)
+            # console output of the silent=False paths is captured (it is not an observation)
+            with contextlib.redirect_stdout(out_buf):
+                common.call_with_watchdog(body, 90.0)
         finally:
             rec.active = False
             CH.json, CH.re = old_json, old_re
@@ -976,7 +1267,7 @@ class C11(Check):
         tabs = rec.tables()
         trace = {"rec": rec, "tabs": tabs, "steps": steps, "schemas": schemas, "texts": texts,
                  "text_ids": [rec.texts[t] for t in texts],      # ids are by content: equal texts share one id
-                 "npat": len(rec.pats), "nrep": len(rec.reps), "CH": CH, "CL": CL, "S": S}
+                 "npat": len(rec.pats), "nrep": len(rec.reps), "CH": CH, "CL": CL, "S": S, "pre": pre}
         if rec.inconsistent:
             trace["harness_error"] = "oracle answered one key in two ways: %r" % (rec.inconsistent,)
         return obs, trace
@@ -1000,14 +1291,22 @@ class C11(Check):
             czll(t["strip"]), czll(t["loads"]), czll(t["findall"]), czll(t["sub"]), czll(t["coerce"]),
             czll(t["validate"]), czl(t["none"]), czll(t["cochap"]), cz(3 if case["misfold"] == "raise" else 0))
         ops = []
-        for op in case["ops"]:
+        for n, op in enumerate(case["ops"]):
             if op[0] == "register":
                 ops.append([2, op[1], CO_KINDS.index(op[2])])
             elif op[0] == "reset":
                 ops.append([3])
             elif op[0] == "heal":
                 m, e = dyadic(op[4])
-                ops.append([4, op[2], op[3], m, e] + [trace["text_ids"][i] for i in op[1]])
+                if "mock" in heal_opts(op):
+                    # the library's generator answers from the error context it is handed; the model's generator is
+                    # 'the k-th call returns a text': the texts it actually returned (accessor / console options are
+                    # invisible to the model on purpose: they must not change anything)
+                    got = trace["steps"][n].get("gen_texts") or [trace["texts"][op[1][0]]]
+                    raws = [trace["rec"].texts[t] for t in got]
+                else:
+                    raws = [trace["text_ids"][i] for i in op[1]]
+                ops.append([4, op[2], op[3], m, e] + raws)
             else:
                 ops.append([0 if op[0] == "fold" else 1, trace["text_ids"][op[1]], op[2]] + list(op[3] or []))
         reg0 = [[int(k), CO_KINDS.index(v)] for k, v in sorted(case["co"].items())]
@@ -1025,8 +1324,23 @@ class C11(Check):
             return Violation("C11/harness", str(trace))
         rec = trace["rec"]
         total = good = 0
+        pre = trace.get("pre") or {}
+        if "exc" in pre:
+            return Violation("C11/accessor-raises", f"get_statistics() on a new Chaperone raised {type(pre['exc']).__name__}: {pre['exc']}")
+        if "stats" in pre and pre["stats"] != [0] * 10:
+            return Violation("C11/statistics", f"counters of a new Chaperone are {pre['stats']}")
         for n, st in enumerate(trace["steps"]):
             op = st["op"]
+            if "access_exc" in st:
+                e = st["access_exc"]
+                return Violation("C11/accessor-raises", f"call {n}: a read-only accessor (FoldedProtein.map / HealingResult.valid, "
+                                                        f".structure / get_statistics) raised {type(e).__name__}: {str(e)[:200]}")
+            if "access_changed" in st:
+                return Violation("C11/accessor-changes-result", f"call {n}: reading the result (FoldedProtein.map with a function that "
+                                                                f"returns / raises, HealingResult.valid / .structure) changed it: "
+                                                                f"{st['access_changed'][0]} -> {st['access_changed'][1]}")
+            if "stats_twice" in st and not (st["stats_twice"][0] == st["stats_twice"][1] == st["stats"]):
+                return Violation("C11/statistics", f"call {n}: three consecutive get_statistics() differ: {st['stats_twice']}, {st['stats']}")
             if op[0] == "register":
                 continue
             if op[0] == "reset":
@@ -1167,7 +1481,7 @@ class C11(Check):
             if isinstance(h, CoRaise) and callbacks_raise:
                 return None
             return Violation("C11/raises", f"{name} raised {type(h).__name__}: {str(h)[:200]}")
-        raws = [trace["texts"][idxs[min(k, len(idxs) - 1)]] for k in range(len(st["gen_calls"]))]
+        raws = list(st["gen_texts"])            # what the generator returned, call by call
         # the oracle calls of each fold_enhanced the loop made
         segs, cur = [], None
         for row in st["log"]:
@@ -1244,13 +1558,11 @@ class C11(Check):
                 return Violation("C11/plain-enhanced-disagree", f"{name}: generation {k}: fold gives valid={p.valid} {p.structure!r:.100}; "
                                                                 f"the loop's fold_enhanced gives valid={got_valid} {got!r:.100}")
         # the same loop on a FRESH Chaperone: same answer (nothing carried over from earlier calls)
-        calls = []
-
-        def generator(prompt, error_context=None):
-            calls.append(error_context)
-            return trace["texts"][idxs[min(len(calls) - 1, len(idxs) - 1)]]
+        # (always with silent=True and the default constructor knobs: console output and max_retries of the Chaperone
+        # must not change anything either)
         try:
-            same = CL.ChaperoneLoop(generator=generator, chaperone=fresh_chap(), schema=schema, max_retries=mr,
+            same = CL.ChaperoneLoop(generator=make_generator(CL, op, trace["texts"], lambda k, ctx, text: None),
+                                    chaperone=fresh_chap(), schema=schema, max_retries=mr,
                                     confidence_decay=decay, silent=True).heal("p")
         except Exception as e:
             return Violation("C11/raises", f"{name}: raised {type(e).__name__} on a fresh Chaperone: {str(e)[:150]}")
@@ -1304,7 +1616,7 @@ class C11(Check):
     def nontrivial(self, case, obs, trace):
         return (bool([t for t in case["tags"] if t != "pair"]) or bool(case["ctor"]) or bool(case["co"]) or bool(case["misfold"])
                 or len(self._calls(case)) > 2 or any(op[3] for op in self._calls(case))
-                or any(op[0] == "heal" for op in case["ops"]))
+                or any(op[0] == "heal" for op in case["ops"]) or bool(case.get("knobs")) or bool(case.get("access")))
 
     def classify(self, case, obs, trace):
         ks = ["op=" + o for o in case["tags"]] or ["op=clean"]
@@ -1320,6 +1632,12 @@ class C11(Check):
             ks += ["co=" + v for v in case["co"].values()]
         if case["misfold"]:
             ks.append("misfold=" + case["misfold"])
+        for k_, v_ in sorted((case.get("knobs") or {}).items()):
+            ks.append("chaperone-%s=%r" % (k_, v_))
+        if case.get("access"):
+            ks.append("accessors-interleaved")
+        if case["ctor"] == []:
+            ks.append("ctor-strategies=[]")
         if isinstance(trace, dict) and "steps" in trace:
             for st in trace["steps"]:
                 if "res" not in st:
@@ -1328,6 +1646,17 @@ class C11(Check):
                 if st["op"][0] == "heal":
                     decay, k = st["op"][4], len(st["gen_calls"])
                     ks.append("heal-decay=%r" % decay)
+                    o = heal_opts(st["op"])
+                    if "mock" in o:
+                        ks.append("heal-mock-generator")
+                        ks.append("heal-mock:" + ("healed-text-returned" if k > 1 and st["gen_texts"][-1] != st["gen_texts"][0]
+                                                  else "initial-text-only"))
+                    if o.get("loud"):
+                        ks.append("heal-silent=False")
+                        for key, word in (("Healed after", "healed"), ("Misfolded output detected", "misfolded"),
+                                          ("UBIQUITIN_TAG", "ubiquitin")):
+                            if key in st.get("printed", ""):
+                                ks.append("heal-printed:" + word)
                     if kind == "raised":
                         ks.append("heal=raised")
                         continue
@@ -1345,6 +1674,8 @@ class C11(Check):
                     if st["op"][0] == "enh":
                         ks.append("valid=" + r.strategy_used.value if r.strategy_used else "valid=?")
                         ks.append("coercions=%d" % len(r.coercions_applied))
+                        if r.strategy_used and r.strategy_used.value in ("lenient", "repair") and len(r.coercions_applied) >= 7:
+                            ks.append("confidence-floor:" + r.strategy_used.value)
                     else:
                         ks.append("valid(fold)")
                 else:
@@ -1378,8 +1709,13 @@ class C11(Check):
             while changed:
                 changed = False
                 cur = case["ops"][i]
-                cands = [[*cur[:3], len(cur[1]) - 1, cur[4]]] if cur[3] != len(cur[1]) - 1 else []
-                cands += [["heal", cur[1][:j] + cur[1][j + 1:], cur[2], cur[3] - 1, cur[4]] for j in range(len(cur[1]) - 1)]
+                if "mock" in heal_opts(cur):
+                    cands = [[*cur[:3], cur[3] - 1, *cur[4:]]] if cur[3] > 0 else []
+                else:
+                    cands = [[*cur[:3], len(cur[1]) - 1, *cur[4:]]] if cur[3] != len(cur[1]) - 1 else []
+                    cands += [["heal", cur[1][:j] + cur[1][j + 1:], cur[2], cur[3] - 1, *cur[4:]] for j in range(len(cur[1]) - 1)]
+                if heal_opts(cur).get("loud"):
+                    cands.append([*cur[:5], {k: v for k, v in cur[5].items() if k != "loud"}])
                 for cand in cands:
                     ops2 = [list(o) for o in case["ops"]]
                     ops2[i] = cand
@@ -1412,6 +1748,14 @@ class C11(Check):
         for key in ("misfold",):
             if case[key] and pred({**case, key: None}):
                 case[key] = None
+        for key in ("knobs", "access"):
+            if case.get(key):
+                cand = {k: v for k, v in case.items() if k != key}
+                try:
+                    if pred(cand):
+                        case = cand
+                except Exception:
+                    pass
         if case["ctor"] and pred({**case, "ctor": None}):
             case["ctor"] = None
         for ti in range(len(case["texts"])):
